@@ -10,6 +10,7 @@ import SideVerif.Drive.C03
 import SideVerif.Drive.C06
 import SideVerif.Drive.C08
 import SideVerif.Drive.C17
+import SideVerif.Drive.C20
 open Lean
 namespace SideVerif.Drive
 
@@ -29,6 +30,7 @@ def dispatch (op : String) (j : Json) : Except String Json :=
   | "c06" => c06 j
   | "c08" => c08 j
   | "c17" => c17 j
+  | "c20.mft" => c20Mft j
   | "ping" => pure (Json.str "pong")
   | _ => throw s!"unknown op {op}"
 
